@@ -326,7 +326,14 @@ def _mt(case, ctx, g):
     ctx.close("expected_log_prob", elp, _elp_ref(y, mean, v, rd).sum(-1), "direct", cls=cls)
     lm = lik.log_marginal(y, d)
     ctx.close("log_marginal", lm, _lm_ref(y, mean, v, rd).sum(-1), "direct", cls=cls)
-    ctx.hit("forward_scale", 0)
+    # conditional p(y | f) for given function values: independent normals with the noise DIAGONAL in the (n, t) frame
+    try:
+        fsamp = util.randn(g, 3, *torch.broadcast_shapes(torch.Size(db), torch.Size(lb)), n, t)
+        cond = lik.forward(fsamp)
+        ctx.close("forward_scale", cond.base_dist.scale if hasattr(cond, "base_dist") else cond.scale, rd.sqrt().expand(fsamp.shape), "direct", cls=cls + ":conditional_scale")
+        ctx.close("forward_scale", cond.mean, fsamp, "bit", cls=cls + ":conditional_mean")
+    except Exception as e:
+        ctx.fail("forward_scale", f"multitask likelihood.forward raised {type(e).__name__}: {str(e)[:120]}", "raise", exc=type(e).__name__)
     ctx.cell({k: v_ for k, v_ in case.items() if k != "seed"})
 
 
@@ -365,8 +372,15 @@ def _list(case, ctx, g):
         ctx.close("list_memberwise_mean", out.mean, d.mean, "bit", member=i)
     ys = [d.mean + util.randn(g, n) for d in ds]
     if not case["call_noise"]:
-        elps = ll.expected_log_prob(*[(y, d) for y, d in zip(ys, ds)]) if False else [lik.expected_log_prob(y, d) for lik, y, d in zip(liks, ys, ds)]
-        got = ll.expected_log_prob(*zip(ys, ds)) if False else None
+        # expected_log_prob of the list: one (observations, distribution) tuple per member, each member's own closed form
+        try:
+            got_e = ll.expected_log_prob(*[(y_, d_) for y_, d_ in zip(ys, ds)])
+            ctx.expect("list_length", len(got_e) == len(liks), f"{len(got_e)} expected_log_prob outputs for {len(liks)} members")
+            for i, (lik, kind, fixed, d_, y_, ge) in enumerate(zip(liks, case["members"], fixeds, ds, ys, got_e)):
+                r_ = _R_single(lik, kind, fixed, None, d_.mean.shape)
+                ctx.close("list_memberwise", ge, _elp_ref(y_, d_.mean, d_.variance, r_), "direct", cls="list:expected_log_prob:" + kind, member=i)
+        except Exception as e:
+            ctx.fail("list_memberwise", f"LikelihoodList.expected_log_prob raised {type(e).__name__}: {str(e)[:120]}", "raise", exc=type(e).__name__)
     fs = [util.randn(g, 2, n) for _ in ds]
     try:
         conds = ll.forward(*fs, **kw)
